@@ -91,13 +91,18 @@ def run(chk):
         if c1["steps"] != K:
             chk.fail("fit with max_fitting_steps=%d and no threshold performed %d iterations" % (K, c1["steps"]), ctx)
         # the value compared at step k is the average log-likelihood of the parameters entering step k
-        for k, v in enumerate(c1["lls"]):
+        # (two differently chunked float runs are only comparable while no variance has collapsed onto a floor: a component sitting on a
+        # single point gets the cancellation noise of sum_pxx/n - mean^2 as its variance, which depends on the order of summation)
+        comparable = c1["well_conditioned"] and not any(floor_flags)
+        if not comparable:
+            chk.count(1, key=("collapsed-variance case excluded from the chunked-vs-in-memory comparison",))
+        for k, v in enumerate(c1["lls"] if comparable else []):
             if not abs(v - traj[k]) <= 1e-9 * max(1.0, abs(traj[k])):
                 chk.fail("reported average log-likelihood at step %d is %.12g, parameters entering the step give %.12g" % (k + 1, v, traj[k]),
                          dict(ctx, reported=c1["lls"], trajectory=traj))
                 break
         # final model = K iterations
-        if not (np.allclose(c1["m1"].means, snaps[K].means, rtol=1e-7, atol=1e-9)
+        if comparable and not (np.allclose(c1["m1"].means, snaps[K].means, rtol=1e-7, atol=1e-9)
                 and np.allclose(c1["m1"].variances, snaps[K].variances, rtol=1e-7, atol=1e-12)
                 and np.allclose(c1["m1"].weights, snaps[K].weights, rtol=1e-7, atol=1e-12)):
             chk.fail("fit(cap=%d) differs from %d single EM iterations" % (K, K), ctx)
